@@ -235,6 +235,8 @@ func makeComplexType(from *xsd.ComplexType, knownTypes *TypeList, logger *logrus
 	item := &StandardType{
 		baseType: baseType{name: from.Name.Local},
 	}
+	// known before its children are visited: an element may have the type it belongs to
+	knownTypes.Add(item)
 
 	for _, child := range getAllElements(from) {
 		c := createChildItem(child.Name, child.Type, false, child.Optional, child.Plural)
